@@ -5,8 +5,9 @@ PROPS = {
     "C05": {
         "coq": ["Props/C05.v"],
         "level": "proof",
-        "harness": ["purediff"],
-        "stages": [("pure", stage_pure, {"suites": ["can_call"], "n_quick": 20000, "n_thorough": 400000})],
+        "harness": ["purediff", "gwrun"],
+        "stages": [("pure", stage_pure, {"suites": ["can_call"], "n_quick": 20000, "n_thorough": 400000}),
+                   ("gw", stage_gw, {"profiles": [("access", 300, 6000)]})],
         "rule": "structured call lists over a 4-letter alphabet with empty/star entries, action = entry | prefix | suffix | "
                 "random | whole list | raw bytes, 10% byte-mutated; non-trivial = list with >= 2 entries; distinct by input",
         "assumptions": ["codec.AccessResult decoding (encoding/json) is not modelled"],
@@ -17,8 +18,9 @@ PROPS = {
     "C12": {
         "coq": ["Props/C12.v"],
         "level": "proof",
-        "harness": ["purediff"],
-        "stages": [("pure", stage_pure, {"suites": ["pattern", "lcs", "ressub"], "n_quick": 6000, "n_thorough": 150000})],
+        "harness": ["purediff", "gwrun"],
+        "stages": [("pure", stage_pure, {"suites": ["pattern", "lcs", "ressub"], "n_quick": 6000, "n_thorough": 150000}),
+                   ("gw", stage_gw, {"profiles": [("reset", 250, 6000)]})],
         "rule": "patterns/names over a token alphabet with wildcards, invalid tokens and byte mutations (names derived from the pattern "
                 "so matches are frequent); all pairs of collections up to length 3 over 2 value classes plus random edit-distance pairs "
                 "up to length 10 over <=5 classes of all four value kinds; direct-drive op sequences (events, reset start/answers incl. "
@@ -133,6 +135,75 @@ PROPS = {
         "assumptions": [],
         "technique": "Coq direct-subscription ledger monitor (extracted) evaluated on scheduled traces of the real gateway, cross-checked against verif-tagged introspection of the gateway's counters",
         "level_text": "The accounting rule is a decidable Coq predicate evaluated on explored histories; violations are replayable histories",
+        "level_note": "trusted: Coq kernel, extraction, the harness (mock messaging system, consistent mock service, scheduler hooks, frame abstraction in harness/internal/gw); task atomicity (DESIGN section 4); modelled not verified: encoding/json, gorilla/websocket",
+    },
+    "C04": {
+        "coq": ["Props/C04.v"],
+        "level": "proof",
+        "harness": ["gwrun", "purediff"],
+        "stages": [("pure", stage_pure, {"suites": ["can_get"], "n_quick": 10, "n_thorough": 10}),
+                   ("gw", stage_gw, {"profiles": [("access", 300, 6000), ("basic", 60, 1000), ("wild", 0, 1000)]})],
+        "rule": "histories with a consistent access policy per (token, resource) that changes only together with a reaccess event, token event or "
+                "system reset; every access outcome (grant, get:false, accessDenied, internal error, timeout); subscribe/get/call/auth with "
+                "resource responses, concurrent requests on one resource; monitor: every data delivery for a directly requested resource needs an "
+                "answered get grant for that connection and resource requested after every invalidation that had been followed by a quiescent point",
+        "assumptions": ["an invalidation counts as having reached the gateway once a quiescent point followed it (the gateway's own processing order inside a busy period is not observable)"],
+        "technique": "Coq proof (CanGet verdict table; transient errors never cached) + Coq access-gating monitor (Spec/AccessMon.v, extracted) evaluated on scheduled traces of the real gateway + differential of Access.CanGet",
+        "level_text": "Verdict logic proved; the gating statement is a decidable Coq predicate over observable traces evaluated on explored histories of the real code",
+        "level_note": "trusted: Coq kernel, extraction, the harness (mock messaging system, consistent mock service, scheduler hooks, frame abstraction in harness/internal/gw); task atomicity (DESIGN section 4); modelled not verified: encoding/json, gorilla/websocket",
+    },
+    "C06": {
+        "coq": ["Props/C06.v"],
+        "level": "proof",
+        "harness": ["gwrun"],
+        "stages": [("gw", stage_gw, {"profiles": [("access", 300, 6000), ("reset", 150, 3000)]})],
+        "rule": "as C04 with token events on connections with and without a token, reaccess events, system resets with access patterns, triggers injected "
+                "while loading, while events are queued and while an earlier check is pending; monitor: every trigger is followed (by the next quiescent "
+                "point) by an access request with a current token for each affected direct subscription, a non-grant verdict by an unsubscribe event, and "
+                "no uniquely tagged event that reached the gateway after the trigger is delivered before the verdict",
+        "assumptions": [],
+        "technique": "Coq proof (revocation removes all direct subscriptions with one event; verdict table) + Coq revocation monitor (extracted) evaluated on scheduled traces of the real gateway",
+        "level_text": "Counter/verdict logic proved; the revocation statement is a decidable Coq predicate evaluated on explored histories",
+        "level_note": "trusted: Coq kernel, extraction, the harness (mock messaging system, consistent mock service, scheduler hooks, frame abstraction in harness/internal/gw); task atomicity (DESIGN section 4); modelled not verified: encoding/json, gorilla/websocket",
+    },
+    "C09": {
+        "coq": ["Props/C09.v"],
+        "level": "proof",
+        "harness": ["gwrun"],
+        "stages": [("gw", stage_gw, {"profiles": [("churn", 200, 5000), ("long", 100, 2000), ("basic", 50, 1000)]})],
+        "rule": "histories with disconnects, evictions fired at arbitrary moments, failing gets, delete events, resource ids around the control-line limit; "
+                "ending with every client gone and every eviction timer fired; monitor at each quiescent point (introspection): use count = subscribers, "
+                "unused <-> queued for eviction, entries = event subscriptions, every get under a standing subscription, data served only after a fetch under "
+                "the standing subscription, nothing left at the end",
+        "assumptions": ["the eviction delay is replaced by an explicit driver action (VerifEvict fires the timer of a queued entry)"],
+        "technique": "Coq proof (use-count / eviction machine, all op sequences, Comp/UseCount.v) + Coq cache life-cycle monitor (extracted) on scheduled traces with verif-tagged introspection",
+        "level_text": "Entry machine proved for all operation sequences; tied to the code by the monitor comparing the gateway's own counters (introspection) on explored histories",
+        "level_note": "trusted: Coq kernel, extraction, the harness (mock messaging system, consistent mock service, scheduler hooks, frame abstraction in harness/internal/gw); task atomicity (DESIGN section 4); modelled not verified: encoding/json, gorilla/websocket",
+    },
+    "C10": {
+        "coq": ["Props/C10.v"],
+        "level": "proof",
+        "harness": ["gwrun", "purediff"],
+        "stages": [("pure", stage_pure, {"suites": ["expand_cid"], "n_quick": 3000, "n_thorough": 50000}),
+                   ("gw", stage_gw, {"profiles": [("access", 200, 4000), ("churn", 100, 2000)]})],
+        "rule": "multi-connection histories with distinct tokens; monitor: no frame to a client contains any connection id, every service request made by "
+                "connection c's worker carries c's id and a token of c in effect since the last quiescent point; differential of the {cid} expansion",
+        "assumptions": ["services never put connection ids into payloads (the mock does not)"],
+        "technique": "Coq proof ({cid} expansion leaves ids without braces unchanged; token-reset filter) + Coq isolation monitor (extracted) on scheduled traces + differential of ExpandCID",
+        "level_text": "Construction lemmas proved; the isolation statement is a decidable Coq predicate evaluated on explored multi-connection histories",
+        "level_note": "trusted: Coq kernel, extraction, the harness (mock messaging system, consistent mock service, scheduler hooks, frame abstraction in harness/internal/gw); task atomicity (DESIGN section 4); modelled not verified: encoding/json, gorilla/websocket",
+    },
+    "C11": {
+        "coq": ["Props/C11.v"],
+        "level": "proof",
+        "harness": ["gwrun"],
+        "stages": [("gw", stage_gw, {"profiles": [("churn", 250, 6000), ("wild", 0, 1500)]})],
+        "rule": "disconnect injected at random steps with requests, loads, access checks and queued events outstanding, late answers delivered afterwards; "
+                "monitor at the next quiescent point: no subscription, no conn-event subscription left for the connection, use counts equal remaining "
+                "subscribers, and no service request on its behalf afterwards",
+        "assumptions": ["WebSocket connections only in this stage"],
+        "technique": "Coq proof (use count stays the number of users under any release order; late release absorbed) + Coq cleanup monitor (extracted) on scheduled traces with introspection",
+        "level_text": "Cache-side accounting proved; the cleanup statement is a decidable Coq predicate evaluated on explored histories with disconnects at arbitrary steps",
         "level_note": "trusted: Coq kernel, extraction, the harness (mock messaging system, consistent mock service, scheduler hooks, frame abstraction in harness/internal/gw); task atomicity (DESIGN section 4); modelled not verified: encoding/json, gorilla/websocket",
     },
 }
